@@ -8,6 +8,7 @@ sys.path.insert(0, os.path.dirname(os.path.abspath(__file__)))
 sys.path.insert(0, os.path.join(os.path.dirname(os.path.abspath(__file__)), "..", "tools"))
 import C06 as P06  # noqa: E402  (mutant generator)
 import codec  # noqa: E402
+import common  # noqa: E402
 import cppcommon as C  # noqa: E402
 import cpprun  # noqa: E402
 import schema as S  # noqa: E402
@@ -76,17 +77,48 @@ def main():
             if sample is None and o.get("ok") is False and n > 8:
                 sample = {"schema": j["text"], "endianness": op[1], "data": op[2], "result": "false"}
     C.report_build_errors(chk, cases, errors)
+    # the tie of the C07 theorems: the compiled decoder's verdict = the decoder model's verdict, evaluated inside Coq
+    entries = []
+    for j in cj:
+        r = out.get(j["id"], {})
+        if "ops" not in r:
+            continue
+        for op, o in zip(j["ops"], r["ops"]):
+            if "crash" not in o and "exception" not in o and "ok" in o:
+                entries.append((j["id"], len(entries), op[1], op[2], bool(o["ok"]), j))
+    if quick and len(entries) > 6000:
+        rng2 = random.Random(chk.seed + 7)
+        entries = rng2.sample(entries, 6000)
+
+    def ex(en, names):
+        i, k, e, hx, ok, j = en
+        return "(%d, %d, cpp_dec_case %s %s %s %s)" % (i, k, "LE" if e == "little" else "BE", S.to_coq(cases[i][2], names),
+                                                       S.bytes_coq(bytes.fromhex(hx)), "true" if ok else "false")
+
+    files = codec.write_case_files(common.scratch("c07"), "dec", entries, ex, chunk=300)
+    byk = {en[1]: en for en in entries}
+    for i, k, r in codec.eval_case_files(files):
+        en = byk.get(k)
+        case = {"schema_text": en[5]["text"], "schema": en[5]["schema"], "root": en[5]["root"], "endianness": en[2], "data": en[3],
+                "compiled_decoder_returned": en[4], "model_result": r}
+        if r[:1] == [98]:
+            chk.violation("model-crash-%d-%d" % (i, k), dict(case, kind="the decoder model reaches an out-of-bounds load on this input (theorem C07_no_out_of_bounds_no_hang broken?)"))
+        else:
+            chk.violation("corr-%d-%d" % (i, k), dict(case, kind="correspondence broken: the compiled decoder returned %s where the decoder model CppFull.cpp_decode returns %s" % (en[4], bool(r[1:2] == [1]))),
+                          note="no-failing-input-found")
+    chk.coverage["coq_decode_verdicts"] = len(entries)
     chk.coverage["outcomes"] = outcomes
     chk.coverage["rule"] = ("malformed inputs as in C06 (every prefix, extensions, aligned 1/2/4/8-byte words replaced by boundary values, "
                             "bit flips, random bytes) derived from valid encodings, both byte orders, fed to the generated decode<E> "
                             "compiled with -fsanitize=address,undefined on exact-size heap buffers with a counting operator new. "
                             "Oracle: no sanitizer report/crash/exception; peak allocation <= 64 KiB + 64 x input size; when decode "
-                            "returns true, get_byte_size() and the re-encoding have exactly the input's length. "
+                            "returns true, get_byte_size() and the re-encoding have exactly the input's length; every verdict is also compared inside "
+                            "Coq with the decoder model cpp_decode. "
                             "distinct_nontrivial = distinct (schema, outcome, input length).")
     if sample:
         chk.sample(sample)
     chk.assumptions += ["ASan/UBSan detect faults on the executions run; absence of a report is not a proof of memory safety"]
-    return chk.finish(level="exploration")
+    return chk.finish(level="proof")
 
 
 if __name__ == "__main__":
